@@ -56,6 +56,13 @@ def gen_streams(rng, n_http, n_rpc, maxlen):
             struct.pack("!II", 1, cl) + bytes(rng.getrandbits(8) for _x in range(cl)) + struct.pack("!II", rng.choice([0, 1]), vl) + \
             bytes(rng.getrandbits(8) for _x in range(vl)) + bytes(rng.choice([0, 4, 8]))
         out.append(("rpc_odd", rpc.record(m), None, True, None))
+    # record marks that misstate the length of the call (shorter, longer, zero): how such a stream is treated is the
+    # responder's business - but it is the same business under every segmentation (trigger calibrated from the byte-wise run)
+    for _ in range(2):
+        c = rpc.gen_call(rng, prog=rpc.PMAP, vers=rng.choice([2, 3, 4]), proc=rng.choice([0, 3, 4]), maxauth=8)
+        m = bytes([rng.choice([0x01, 0x7A, 0x99, 0xFE])]) + c["msg"][1:]
+        L = rng.choice([0, 0, 4, 16, len(m) - 4, len(m) - 1, len(m) + 4, len(m) + 400, 0x7FFFFFFF])
+        out.append(("rpc_odd", struct.pack("!I", 0x80000000 | (L & 0x7FFFFFFF)) + m, None, True, None))
     # requests that do not fit one 1500-byte frame (long cookie / target; an RPC call followed by kilobytes of
     # arguments): unsegmented they arrive in one jumbo / coalesced frame, segmented in MSS-sized pieces
     for _ in range(2):
@@ -156,6 +163,11 @@ def run_sessions(ctx, cfg, stream, plans):
             a = pkt.parse(r.reply) if r.kind == "R" else {}
             if a.get("flags") != (SYN | ACK):
                 ctx.inconclusive += 1
+                per_sess.append([])
+                continue
+            if not ctx.claim_cookie(a["seq"], (e.cip, e.sip, sp, dp)):
+                # birthday collision with an earlier session of this table (thousands pile up): that session's control block
+                # would be continued - the recorded cookie-collision finding, not a segmentation effect; session dropped
                 per_sess.append([])
                 continue
             ack = (a["seq"] + 1) & 0xFFFFFFFF
@@ -260,7 +272,7 @@ def shard(ctx, budget_s, n_http, n_rpc, maxlen):
                           frames=[ref[0][0][3]], extra={"stream": stream.hex()})
             continue
         # cross-check the grammar's trigger byte against the byte-wise run
-        bw = [segs for cuts, segs in res if cuts == list(range(1, len(stream)))]
+        bw = [segs for cuts, segs in res if cuts == list(range(1, len(stream))) and segs]
         okind = kind
         if kind == "http_neg" and ref_payload is not None:
             # whether such a stream *should* be answered is C13's business; that it is answered in one piece makes it, for
